@@ -329,6 +329,8 @@ class RF:
     def __pow__(self, e) -> 'RF':
         if isinstance(e, RF):
             if not e.is_const():
+                if self.is_const() and self.const_value() == 1:
+                    return RF(ONE)
                 return fn('pow', self, e)
             e = e.const_value()
         e = F(e)
@@ -550,6 +552,11 @@ def fn(name: str, *args) -> RF:
     args = tuple(rf(a) for a in args)
     if name == 'sqrt':
         return args[0] ** Fraction(1, 2)
+    if name == 'pow' and len(args) == 2:
+        if args[0].is_const() and args[0].const_value() == 1:
+            return RF(ONE)
+        if args[1].is_const():
+            return args[0] ** args[1].const_value()
     if len(args) == 1:
         x = args[0]
         if x.is_zero() and name in AT_ZERO:
